@@ -42,6 +42,8 @@ CHECKS = {
             "Every flat arity 2..16, nested tuples and unit clauses to depth 2, mode conflicts (either order, any distance) and empty stubs at every position with the error Assemble predicts and raised inside Unimock::new; the must-not-compile chains (at_least on ordered, then after inexact, multi-use of non-Clone) located per function in one cargo check run."),
     "C06": ("exploration", "3.6, 6/C06", "Matching.tla (Sem/Stmt vs generated-closure Macro, invariant MacroIsMatch, raw-splice sensitivity) by TLC; every input rendered as matching!(..) and as a plain Rust match, all argument tuples of the domain, unordered and ordered evaluation",
             "Model-derived exhaustive case generation: for every input of the bounded pattern grammar and every argument tuple of the finite domain the macro's accept/reject (diagnostics off and on) must equal the model's, and rustc's own match must agree with the model (three-way). Found and led to the fix of the unparenthesised-guard defect."),
+    "C19": ("exploration", "3.6, 3.7, 6/C19", "Shapes.tla RenderArg/CallText/PatSrc and Matching.tla MismatchPositions enumerated by TLC; generated traits and scenarios per (shape, error kind); panic messages parsed structurally",
+            "Model-derived exhaustive case generation: method shapes x ten error scenarios with pairwise-distinct argument values (call rendering, '?' for non-Debug, pattern source text and file:line), and for every guard-free single-alternative pattern of the Matching grammar x every rejected tuple the exact set of reported argument positions."),
 }
 
 NOT_YET = {
